@@ -105,6 +105,8 @@ type plan struct {
 	hPreI, hPostI      int
 	hRet               bool
 	cancelled          bool
+	lateSend           bool // the caller sends once more after CloseSend (must be refused, nothing on the wire)
+	lateSent           bool
 }
 
 func newPlan(rng *rand.Rand, r int, t int, opt workloadOpts) *plan {
@@ -134,6 +136,9 @@ func newPlan(rng *rand.Rand, r int, t int, opt workloadOpts) *plan {
 	}
 	p.respSz = pickSize(rng, false)
 	p.cClose = true
+	if (p.shape == "CS" || p.shape == "BD") && rng.Intn(4) == 0 {
+		p.lateSend = true
+	}
 	if p.shape == "U" && !opt.meta && rng.Intn(2) == 0 {
 		p.invoke = true
 	}
@@ -394,6 +399,8 @@ func (wl *workload) Next(w *World, step int) string {
 				add(3, fmt.Sprintf("csend r=%d size=%d", p.r, p.cSends[p.ci]))
 			} else if p.cClose && !p.cClosed {
 				add(3, fmt.Sprintf("cclose r=%d", p.r))
+			} else if p.cClosed && p.lateSend && !p.lateSent {
+				add(2, fmt.Sprintf("csend r=%d size=%d late=1", p.r, 5+rng.Intn(40)))
 			}
 		}
 		if !cTerm {
@@ -498,7 +505,11 @@ func (wl *workload) commit(mv string) {
 	case "cnew", "cinvoke":
 		p.newIssued = true
 	case "csend":
-		p.ci++
+		if m["late"] == "1" {
+			p.lateSent = true
+		} else {
+			p.ci++
+		}
 	case "cclose":
 		p.cClosed = true
 	case "hsend":
